@@ -105,6 +105,17 @@ PROBE_XHTML = [
 ]
 XHTML_SELECTORS = ['input:checked', ':required', ':disabled', ':enabled', ':link', 'p:lang(en)', ':dir(rtl)', ':indeterminate',
                    ':root', 'p:first-child', ':default', 'a:any-link', ':read-write', 'INPUT', 'input']
+# every kind of string node Beautiful Soup creates (ruby annotations, script/style/template bodies, CDATA, comments,
+# declarations): what counts as an element's text content must not depend on how the packages were imported
+PROBE_STRINGS = [
+    '<div><ruby>K<rp>(</rp><rt>kan</rt><rp>)</rp></ruby><p>plain kan</p><rt></rt></div>',
+    '<html><head><script>var kan = 1;</script><style>p { color: red }</style><title>kan</title></head><body>'
+    '<template><p>kan</p></template><textarea>kan</textarea><p><!-- kan --></p><p><![CDATA[kan]]></p><bdi>kan</bdi>'
+    '<p dir="auto"><script>abc</script>ש</p></body></html>',
+]
+STRING_SELECTORS = ['rt:empty', 'rp:empty, rt:empty', ':-soup-contains-own(kan)', ':-soup-contains(kan)', ':empty',
+                    'ruby:-soup-contains("(")', 'script:empty, style:empty', 'template:empty', ':dir(rtl)', ':dir(ltr)',
+                    'p:empty', ':-soup-contains(color)', ':-soup-contains-own(var)', ':root', 'p:not(:empty)', '*']
 PROBE_SELECTORS = [
     'p:nth-child(2)', ':lang(en)', ':default, :indeterminate', 'li:not(.c):nth-of-type(odd)', 'div:has(> a:any-link) b',
     ':dir(rtl), :out-of-range', 'p:-soup-contains("hello")', ':defined, :root > *', 'p:nth-last-child(-n+2):is(:scope p, p)',
@@ -134,12 +145,16 @@ def gen_job(rng):
         blocked = ['lxml', 'html5lib', 'chardet', 'charset_normalizer', 'cchardet']
     elif r < 0.55:
         blocked = sorted(rng.sample(OPTIONAL, rng.randint(1, 3)))
-    switches = rng.choice([[], [], [], [], ['-O'], ['-OO'], ['-B'], ['-O', '-B'], ['-s']])
+    switches = rng.choice([[], [], [], [], ['-O'], ['-OO'], ['-B'], ['-O', '-B'], ['-s'], ['-W', 'error'], ['-X', 'dev'],
+                           ['-W', 'default'], ['-W', 'error', '-O']])
     r0 = rng.random()
-    if r0 < 0.12:
+    if r0 < 0.10:
+        probe = {'markup': rng.choice(PROBE_STRINGS), 'selector': rng.choice(STRING_SELECTORS)}
+        parser = rng.choice(['html.parser', 'html.parser'] + [p for p in ('lxml', 'html5lib') if p not in blocked])
+    elif r0 < 0.20:
         probe = {'markup': rng.choice(PROBE_XHTML), 'selector': rng.choice(XHTML_SELECTORS)}
         parser = 'xml' if 'lxml' not in blocked else 'html.parser'
-    elif r0 < 0.25:
+    elif r0 < 0.30:
         probe = {'markup': rng.choice(PROBE_XML), 'selector': rng.choice(XML_SELECTORS)}
         if probe['selector'].startswith('x|'):
             probe['namespaces'] = {'x': 'urn:x-test'}
